@@ -4,6 +4,9 @@ import (
 	"fmt"
 	"go/constant"
 	"go/token"
+	"go/types"
+	"sort"
+	"strings"
 	"unicode"
 
 	"golang.org/x/tools/go/ssa"
@@ -375,3 +378,86 @@ func (c *Ctx) KEYTRIM(rule string) []report.Obligation {
 }
 
 var _ = report.Discharged
+
+// ---------------------------------------------------------------------------
+// KEYLEAD (C18): what stands before a statement is skipped by CLASS. The key scan that follows lets every blank rune
+// through without looking at it (KEYTRIM removes them from the end of the name only), on the understanding that the
+// scan for the start of the statement has already removed all leading white space - Unicode white space included
+// (NBSP, NEL, U+2028, U+3000). So the functions that find the start of a statement decide blank-ness with rune
+// predicates whose union covers unicode.IsSpace; a scan that compares bytes with a few ASCII blanks does not.
+// ---------------------------------------------------------------------------
+func (c *Ctx) KEYLEAD(rule string) []report.Obligation {
+	var out []report.Obligation
+	fn := c.P.Func("dotenv.(*parser).getStatementStart")
+	if fn == nil {
+		return append(out, anchorViolation(rule, "dotenv.(*parser).getStatementStart"))
+	}
+	scope := []*ssa.Function{fn}
+	for _, cs := range callSites(fn, func(com *ssa.CallCommon) bool {
+		cal := com.StaticCallee()
+		if cal == nil || !c.P.InModule(cal) || cal.Blocks == nil || cal.Signature.Results().Len() != 1 {
+			return false
+		}
+		b, ok := cal.Signature.Results().At(0).Type().Underlying().(*types.Basic)
+		return ok && b.Kind() == types.Int
+	}) {
+		scope = append(scope, cs.Common().StaticCallee())
+	}
+	for i := 0; i < len(scope); i++ {
+		scope = append(scope, scope[i].AnonFuncs...)
+	}
+	isRunePred := func(f *ssa.Function) bool {
+		sig := f.Signature
+		if sig.Params().Len() != 1 || sig.Results().Len() != 1 || sig.Recv() != nil {
+			return false
+		}
+		p, ok1 := sig.Params().At(0).Type().Underlying().(*types.Basic)
+		r, ok2 := sig.Results().At(0).Type().Underlying().(*types.Basic)
+		return ok1 && ok2 && p.Kind() == types.Int32 && r.Kind() == types.Bool
+	}
+	var preds []*runePred
+	names := map[string]bool{}
+	for _, f := range scope {
+		for _, b := range f.Blocks {
+			for _, in := range b.Instrs {
+				for _, op := range in.Operands(nil) {
+					g, ok := (*op).(*ssa.Function)
+					if !ok || !isRunePred(g) || g.Parent() != nil || names[g.String()] {
+						continue
+					}
+					if p, _ := c.resolveRunePred(g); p != nil {
+						names[g.String()] = true
+						preds = append(preds, p)
+					}
+				}
+			}
+		}
+	}
+	key := c.P.FuncID(fn) + " :: leading white space is skipped by rune class"
+	if len(preds) == 0 {
+		return append(out, bad(rule, key, c.P.Pos(fn.Pos()), "the scan for the start of a statement consults no rune predicate: it compares bytes (or runes) with a fixed list of blanks, so a line indented with NBSP / NEL / U+2028 / U+3000 reaches the key scan, which lets blank runes through unexamined: the name keeps the blank (`\\u00a0FOO`), a later `FOO=` no longer overrides it and `$FOO` resolves to nothing"))
+	}
+	missing := ""
+	for r := rune(0); r < 0x3100 && missing == ""; r++ {
+		if !unicode.IsSpace(r) {
+			continue
+		}
+		covered := false
+		for _, p := range preds {
+			if v, why := c.evalRunePred(p, r, 0); why == "" && v {
+				covered = true
+			}
+		}
+		if !covered {
+			missing = fmt.Sprintf("U+%04X", r)
+		}
+	}
+	var ns []string
+	for n := range names {
+		ns = append(ns, n)
+	}
+	sort.Strings(ns)
+	out = append(out, verdict(missing == "", rule, key, c.P.Pos(fn.Pos()),
+		"the predicates it consults ("+strings.Join(ns, ", ")+") cover unicode.IsSpace", "the predicates it consults ("+strings.Join(ns, ", ")+") do not accept "+missing+", which unicode.IsSpace does: a statement indented with it reaches the key scan with the blank still in front"))
+	return out
+}
